@@ -897,6 +897,11 @@ class Models:
                 sl = M.as_slice(c.I, c.st, a)
                 if sl is not None:
                     return M.slice_iter(c.I, c.st, c.dty, sl)
+            if isinstance(a, VOpaque) and a.tag in ('take', 'enumerate') and c.c.get('decl', '').endswith('IntoIterator::into_iter'):
+                # an adaptor consumed by a `for` loop: one representation from the first iteration on (joins at the loop head)
+                seqs = M.to_seqs(c.I, c.st, a)
+                if seqs is not None and a.tag == 'take':
+                    return [(s2, VOpaque(a.ty, 'seq', seq)) for (s2, seq) in seqs]
             return a
 
         # ---- slices / strs
@@ -1555,6 +1560,21 @@ class Models:
                         c.I.store(s4, itref.root, itref.path, VOpaque(it.ty, 'seq', (base, VInt(pos.form.addc(1), 'usize'), end, ops)))
                         out.append((s4, M.some(c.dty, item)))
                 return out
+            if isinstance(it, VOpaque) and it.tag in ('take', 'enumerate', 'range', 'iter') and isinstance(itref, VRef):
+                # any other iterator value the generic sequences can express: convert in place, then step
+                seqs = M.to_seqs(c.I, st, it)
+                if seqs is not None:
+                    out = []
+                    for (s2, seq) in seqs:
+                        base, pos, end, ops = seq
+                        for s3 in c.I.assume(s2.copy(), ('cmp', 'ge', pos.form, end.form), True):
+                            c.I.store(s3, itref.root, itref.path, VOpaque(it.ty, 'seq', seq))
+                            out.append((s3, M.none(c.dty)))
+                        for s3 in c.I.assume(s2.copy(), ('cmp', 'lt', pos.form, end.form), True):
+                            for (s4, item) in M.seq_items(c.I, s3, seq, pos.form):
+                                c.I.store(s4, itref.root, itref.path, VOpaque(it.ty, 'seq', (base, VInt(pos.form.addc(1), 'usize'), end, ops)))
+                                out.append((s4, M.some(c.dty, item)))
+                    return out
             raise AnalysisIncomplete(f"next on {it!r}")
 
         # ---- ranges
